@@ -46,6 +46,9 @@ type Outcome struct {
 	Skip string
 	// Evals is the number of evaluations this case stands for (0 = 1).
 	Evals int
+	// Sample, when set, is written to the evidence samples instead of the
+	// case itself (a readable rendering, e.g. program source + inputs).
+	Sample interface{}
 }
 
 // OK is a helper for a passing outcome.
@@ -178,13 +181,31 @@ func VerifDir() string {
 func (c *Collector) loadKnown() {
 	path := os.Getenv("VERIF_KNOWN")
 	if path == "" {
-		path = filepath.Join(VerifDir(), "known_findings.jsonl")
+		path = filepath.Join(VerifDir(), "known_findings.txt")
 	}
+	for _, fd := range LoadFindings(path) {
+		if fd.Property == c.Property && fd.Status == "open" {
+			cp := fd
+			c.known[fd.Key] = &cp
+		}
+	}
+}
+
+// LoadFindings parses a known-findings file.  Line formats:
+//
+//	open: property=C04 key=<signature> <what fails>
+//	fixed: property=C03 <commit> <what failed>
+//
+// and, for private files of harness authors, JSON objects
+// {"property":..,"key":..,"status":"open","what":..}.  Only open entries
+// suppress anything; the file is never written at run time.
+func LoadFindings(path string) []Finding {
 	f, err := os.Open(path)
 	if err != nil {
-		return
+		return nil
 	}
 	defer f.Close()
+	var res []Finding
 	sc := bufio.NewScanner(f)
 	sc.Buffer(make([]byte, 1<<20), 1<<20)
 	for sc.Scan() {
@@ -192,15 +213,45 @@ func (c *Collector) loadKnown() {
 		if line == "" || strings.HasPrefix(line, "#") {
 			continue
 		}
-		var fd Finding
-		if err := json.Unmarshal([]byte(line), &fd); err != nil {
+		if strings.HasPrefix(line, "{") {
+			var fd Finding
+			if err := json.Unmarshal([]byte(line), &fd); err == nil {
+				res = append(res, fd)
+			}
 			continue
 		}
-		if fd.Property == c.Property && fd.Status == "open" {
-			cp := fd
-			c.known[fd.Key] = &cp
+		var fd Finding
+		switch {
+		case strings.HasPrefix(line, "open:"):
+			fd.Status = "open"
+			line = strings.TrimSpace(line[5:])
+		case strings.HasPrefix(line, "fixed:"):
+			fd.Status = "fixed"
+			line = strings.TrimSpace(line[6:])
+		default:
+			continue
 		}
+		fields := strings.Fields(line)
+		rest := 0
+		for i, fl := range fields {
+			if strings.HasPrefix(fl, "property=") {
+				fd.Property = fl[9:]
+				rest = i + 1
+			} else if strings.HasPrefix(fl, "key=") {
+				fd.Key = fl[4:]
+				rest = i + 1
+			} else {
+				break
+			}
+		}
+		if fd.Status == "fixed" && rest < len(fields) {
+			fd.Commit = fields[rest]
+			rest++
+		}
+		fd.What = strings.Join(fields[rest:], " ")
+		res = append(res, fd)
 	}
+	return res
 }
 
 // IsKnown tells whether sig is listed as an open known finding.
@@ -308,7 +359,9 @@ func (c *Collector) Record(unit string, cs interface{}, out Outcome) bool {
 		}
 	}
 	if want && len(c.samples) < 40 {
-		if raw == nil {
+		if out.Sample != nil {
+			raw = marshalSample(out.Sample)
+		} else if raw == nil {
 			raw = marshalSample(cs)
 		}
 		s, _ := json.Marshal(map[string]interface{}{
